@@ -73,7 +73,7 @@ Fixpoint keys_nodupb (t : ptd) : bool :=
 
 Definition block_okb (h : heap) (b : block) : bool :=
   negb (b_usd b) && (match b_inplace b with None | Some false => true | Some true => false end)
-  && negb (b_swap_dest b) && negb (b_manual b) && keys_nodupb (b_params b) && scopeb h (b_params b).
+  && negb (b_manual b) && keys_nodupb (b_params b) && scopeb h (b_params b).
 
 (* names of one module are pairwise different across _parameters, _buffers and _modules *)
 Definition names_okb (h : heap) : bool :=
